@@ -10,6 +10,24 @@ CHECKS = {
    design="6/C01",
    note="Trusted: harness value trees and generators; rustc. Doubles compared by bits. Empty-map key/value types not compared on compact.",
    technique="runtime monitoring: value interpreter + round-trip/position oracle, supervised worker processes"),
+ "C03": dict(
+   level="exploration",
+   text="Differential conformance against independent reference codecs written from the Apache binary/compact spec texts, both directions, every legal alternative form, envelopes, ApplicationException; exhaustive sub-spaces: all i8, all i16 (value and field id), all 256 type bytes x 5 positions, all 16 compact nibbles x 5 positions, message type codes.",
+   design="6/C03",
+   note="Trusted: the reference codecs (cross-checked against hand-computed spec vectors and against each other). Compact element-bool 0 and bool element-type nibble 1 vs 2 are not judged.",
+   technique="runtime monitoring: differential oracle vs independent reference codec, exhaustive small tables"),
+ "C04": dict(
+   level="exploration",
+   text="size()==bytes-written oracle over generated value trees for every hand-written length protocol in three usage patterns (fresh instance; same instance sizes then writes; value k+1 sized after value k written), all buffer kinds.",
+   design="6/C04",
+   note="Runtime (hand-written) half; the generated-type half (Message::size vs encode) is added by the generated-code pipeline when registered. Trusted: byte counting at the flattened buffer.",
+   technique="runtime monitoring: length walk mirrored call-for-call against the write walk"),
+ "C07": dict(
+   level="exploration",
+   text="skip() oracle: reported count, position, following value and untouched trailing noise, on reference-encoded struct{1:x,2:y}++noise for every wire type, container class, nesting level 1..80 on a 2 MiB stack; 4 sync + 3 async protocols; supervised workers so a stack overflow is an observation.",
+   design="6/C07",
+   note="Trusted: reference encoder for lengths. Unchecked iterative skipper: either exact skip or DepthLimit accepted beyond level 64.",
+   technique="runtime monitoring: position monitor + reference lengths, fixed-stack threads, supervised processes"),
 }
 
 NOT_YET = "check not built yet (work in progress; see DESIGN.md section 6 for the planned monitor)"
